@@ -37,6 +37,7 @@ type Park struct {
 type Spec struct {
 	Type        string   `json:"type"` // asa | ios | linux
 	Hostname    string   `json:"hostname"`
+	HostReply   string   `json:"host_reply,omitempty"` // reply to 'hostname -s' / 'show hostname' if it is not the name (error text, empty line)
 	Password    string   `json:"password"`
 	NeedEnable  bool     `json:"need_enable"` // login ends in user mode, enable required
 	EnablePass  bool     `json:"enable_pass"` // enable asks for password
